@@ -4,6 +4,9 @@ package main
 // entry points with signed transactions. Nothing here re-implements module logic.
 
 import (
+	"bufio"
+	"encoding/base64"
+	"encoding/hex"
 	"encoding/json"
 	"fmt"
 	"math/rand"
@@ -52,6 +55,7 @@ type GenesisSpec struct {
 	ValSelfBond  int64
 	ValBonds     []int64 // optional per-validator self bond (overrides ValSelfBond)
 	MaxVals      uint32
+	StreamW      *bufio.Writer
 }
 
 type Chain struct {
@@ -67,6 +71,7 @@ type Chain struct {
 	home     string
 	Halted   string // non-empty once Begin/EndBlock panicked or hung
 	ValAddrs []sdk.ValAddress
+	StreamW  *bufio.Writer // when set, consensus inputs and response digests are recorded (twin test)
 }
 
 var sdkConfigDone = false
@@ -205,6 +210,8 @@ func NewChain(spec GenesisSpec, startTime time.Time) (*Chain, error) {
 	if err != nil {
 		return nil, err
 	}
+	c.StreamW = spec.StreamW
+	c.stream(StreamEv{K: "genesis", T: startTime.Unix(), Genesis: base64.StdEncoding.EncodeToString(stateBytes)})
 	a.InitChain(abci.RequestInitChain{
 		ChainId:         ChainID,
 		Validators:      []abci.ValidatorUpdate{},
@@ -254,6 +261,7 @@ func (c *Chain) BeginBlock() string {
 	if c.Halted != "" {
 		return c.Halted
 	}
+	c.stream(StreamEv{K: "begin", H: c.Height, T: c.Time.Unix(), AppHash: hex.EncodeToString(c.AppHash)})
 	r := guard(WatchdogLimit, func() {
 		c.App.BeginBlock(abci.RequestBeginBlock{Header: c.header()})
 	})
@@ -279,14 +287,16 @@ func (c *Chain) EndBlock() string {
 	if c.Halted != "" {
 		return c.Halted
 	}
+	var endResp abci.ResponseEndBlock
 	r := guard(WatchdogLimit, func() {
-		c.App.EndBlock(abci.RequestEndBlock{Height: c.Height})
+		endResp = c.App.EndBlock(abci.RequestEndBlock{Height: c.Height})
 	})
 	out := c.classify(r)
 	if out != "ok" {
 		return out
 	}
-	c.App.Commit()
+	commit := c.App.Commit()
+	c.stream(StreamEv{K: "end", H: c.Height, Digest: digestEnd(endResp, commit.Data)})
 	c.InBlock = false
 	c.Height++
 	c.Time = c.Time.Add(5 * time.Second)
@@ -322,6 +332,9 @@ func (c *Chain) Deliver(signer *Account, gas uint64, msgs ...sdk.Msg) TxResult {
 	r := guard(WatchdogLimit, func() {
 		resp = c.App.DeliverTx(abci.RequestDeliverTx{Tx: bz})
 	})
+	if r == "" {
+		c.stream(StreamEv{K: "tx", Bz: base64.StdEncoding.EncodeToString(bz), Digest: digestTx(resp)})
+	}
 	if r == "hang" {
 		c.Halted = "hung"
 		return TxResult{Class: "hang"}
@@ -391,3 +404,5 @@ func (c *Chain) signedTxBytes(signer *Account, gas uint64, msgs ...sdk.Msg) []by
 	}
 	return bz
 }
+
+func simDefaultConsensus() *abci.ConsensusParams { return simapp.DefaultConsensusParams }
